@@ -33,8 +33,8 @@ PROPS.update({
 
 POLICY = lambda prof, q, t: {"quick": [("policy", {"profile": prof, "count": q}), ("stress", {"count": 1000})], "thorough": [("policy", {"profile": prof, "count": t}), ("stress", {"count": 20000})]}
 PROPS.update({
-    "C14": {"suites": {"quick": POLICY("C14", 600, 30000)["quick"] + [("sched", {"profile": "C14", "count": 60, "per_case": 40})],
-                       "thorough": POLICY("C14", 600, 30000)["thorough"] + [("sched", {"profile": "C14", "count": 2000, "per_case": 400})]},
+    "C14": {"suites": {"quick": POLICY("C14", 600, 30000)["quick"] + [("sched", {"profile": "C14", "count": 60, "per_case": 40}), ("sched", {"profile": "C14deep", "count": 60, "per_case": 40})],
+                       "thorough": POLICY("C14", 600, 30000)["thorough"] + [("sched", {"profile": "C14", "count": 2000, "per_case": 400}), ("sched", {"profile": "C14deep", "count": 3000, "per_case": 300})]},
             "design": "6/C14", "projection": core.policy_projection()},
     "C15": {"suites": POLICY("C15", 300, 10000), "design": "6/C15", "projection": core.policy_projection()},
 })
@@ -168,7 +168,9 @@ def run_check(prop, tier, seed, replay):
         opsf = os.path.join(work, "replay.ops")
         with open(opsf, "w") as f:
             f.write("\n".join(payload.get("ops", [])) + "\n")
-        runs.append(("replay", core.run_harness("replay", os.path.join(work, "replay"), {"ops": opsf})))
+        lines0 = payload.get("ops", [])
+        rsuite = "sched" if any(l.startswith(("cnew", "pcnew")) for l in lines0) else ("server" if any(l.startswith("srv ") for l in lines0) else "replay")
+        runs.append(("replay", core.run_harness(rsuite, os.path.join(work, "replay"), {"ops": opsf})))
     else:
         for cf in sorted(glob.glob(os.path.join(ROOT, "corpus", prop, "*.ops"))):
             name = os.path.basename(cf)[:-4]
